@@ -203,3 +203,33 @@ def gen_pmulti(rng):
     c += b",".join(rng.choice(items) for _ in range(rng.randint(0, 4)))
     c += rng.choice([b"]", b"]", b"]", b"]", b"", b"] trailing, x", b"]]", b" ]", b"] */"])
     return c
+
+
+def gen_pairing(rng):
+    """source with begin/end comments only; returns (source, model case fields)"""
+    lines = [b"void f(void) {"]
+    events = []
+    pending = []
+    for _ in range(rng.randint(1, 9)):
+        k = rng.random()
+        if k < 0.3:
+            lines.append(b"    x;")
+            continue
+        end = rng.random() < (0.7 if pending else 0.15)
+        kw = b"cppcheck-suppress-end" if end else b"cppcheck-suppress-begin"
+        items = [(rng.choice([b"a", b"a", b"b", b"c"]), rng.choice([b"", b"", b"", b"s", b"t"])) for _ in range(rng.choice([1, 1, 1, 2, 3]))]
+        if end and pending and rng.random() < 0.75:
+            items = [pending[-1]] if rng.random() < 0.7 else list(pending[-2:])
+        pending = pending[:-len(items)] if end else pending + items
+        if len(items) == 1 and rng.random() < 0.7:
+            i, sy = items[0]
+            c = b"// " + kw + b" " + i + (b" symbolName=" + sy if sy else b"")
+        else:
+            c = b"// " + kw + rng.choice([b"[", b" ["]) + b",".join(i + (b" symbolName=" + sy if sy else b"") for i, sy in items) + b"]"
+        if rng.random() < 0.25:
+            c = b"    x; " + c
+        lines.append(c)
+        for i, sy in items:
+            events.append([end, i, sy, len(lines)])
+    lines.append(b"}")
+    return b"\n".join(lines) + b"\n", flat(events)
